@@ -34,9 +34,24 @@ func c11InHandled(from, to int, kind func(i int) string) []c11InAct {
 // client keeps the batch going for longer than the grace period of process.go; a server that ends
 // by itself while the client is busy).
 func c11InProcScenarios(c *gen.Ctx) (fast, slow []any) {
+	nAdded := 0
 	add := func(kind string, s cc.VerifC11InSpec) {
 		c.E.Count("kind:inproc-" + kind)
 		s.TimeoutS = 20
+		// the order in which the server answers and reads its request (synchronous pipes): every
+		// "complete" scenario in all three orders, one in eight of the others with the server answering first
+		nAdded++
+		if kind == "complete" {
+			for _, o := range []string{"answerFirst", "answerFirstSlow"} {
+				t := s
+				t.ServerOrder = o
+				c.E.Count("kind:inproc-server-" + o)
+				fast = append(fast, t)
+			}
+		} else if nAdded%8 == 0 {
+			s.ServerOrder = []string{"answerFirst", "answerFirstSlow"}[(nAdded/8)%2]
+			c.E.Count("kind:inproc-server-" + s.ServerOrder)
+		}
 		fast = append(fast, s)
 	}
 	addSlow := func(kind string, s cc.VerifC11InSpec) {
